@@ -26,6 +26,7 @@ PID = "C08"
 COQ_HEADER = ("From Coq Require Import List NArith ZArith.\nImport ListNotations.\n"
               "From SK Require Import lib.Tok lib.LGraph model.C08_Model.\n")
 SHARD = 60
+BATCH_MODEL_MAX = 60
 BACKENDS = ["generic", "wl", "morgan", "nauty"]
 NODE_KEYS = ("element", "charge", "aromatic", "hcount")
 IMPL_TIMEOUT = 3000
@@ -296,7 +297,15 @@ def in_model_domain(g):
         return False
 
 
+def _pattern(xs):
+    first = {}
+    return [first.setdefault(x, len(first)) for x in xs]
+
+
 def impl(case):
+    if case["kind"] == "batch":
+        Gs = [_nx(g) for g in case["graphs"]]
+        return [_pattern([_canoniser(be).canonical_signature(G) for G in Gs]) for be in ("generic", "nauty")]
     if case["kind"] != "graph":
         return None
     out = []
@@ -324,11 +333,20 @@ def impl(case):
         for be in ("generic", "nauty"):
             sigs.append(_canoniser(be).canonical_signature(H))
     # equality pattern of the digests (the model computes the pattern of the serialisation strings)
-    first = {}
-    pat = []
-    for s in sigs:
-        pat.append(first.setdefault(s, len(first)))
-    return [out, pat]
+    pat = _pattern(sigs)
+    # value objects: verdicts of the wrappers' __eq__ (base presentation against every other presentation / mutant)
+    from synkit.Graph.canon_graph import CanonicalGraph
+    from synkit.Graph.syn_graph import SynGraph
+    G0 = _nx(case["g"])
+    hs = [_nx(h) for h in [a["g"] for a in case.get("alts", [])] + list(case.get("others", []))]
+    vo = [[] for _ in hs]
+    for be in ("generic", "nauty"):
+        c = _canoniser(be)
+        sg0, cg0 = SynGraph(G0, c), CanonicalGraph(G0, c)
+        for row, H in zip(vo, hs):
+            row.append(bool(sg0 == SynGraph(H, c)))
+            row.append(bool(cg0 == CanonicalGraph(H, c)))
+    return [[out, pat], vo]
 
 
 # ------------------------------------------------------------------ model encoder
@@ -354,6 +372,12 @@ def _cranks(r, g):
 
 
 def coq_case(case):
+    if case["kind"] == "batch":
+        # big whole-family batches stay oracle-only: a multi-MB Gallina literal costs minutes to parse and adds
+        # nothing to what the per-graph cases of the same classes already compare
+        if len(case["graphs"]) > BATCH_MODEL_MAX or not all(in_model_domain(g) for g in case["graphs"]):
+            return None
+        return "run_batch %s" % clist([_cgraph(g) for g in case["graphs"]])
     if case["kind"] != "graph":
         return None
     ps = _present(case)
@@ -363,7 +387,7 @@ def coq_case(case):
     for p in ps:
         G = _nx(p)
         items.append("(%s, %s, %s)" % (_cgraph(p), _cranks(_wl_ranks(G), p), _cranks(_morgan_ranks(G), p)))
-    return "run_case %s %s" % (clist(items), clist([_cgraph(h) for h in case.get("others", [])]))
+    return "run_case2 %s %s" % (clist(items), clist([_cgraph(h) for h in case.get("others", [])]))
 
 
 # ------------------------------------------------------------------ property oracle
@@ -576,7 +600,7 @@ def distribution(cases, obss):
         if _n_aut_gt1_or_tied(c["g"]):
             tied += 1
         try:
-            for row in o[0]:
+            for row in o[0][0]:
                 refines += len(row[3][2])
                 leaves += len(row[3][3])
                 if len(row[3][3]) > 1:
